@@ -185,6 +185,13 @@ class MaskFlow(MustAnalysis):
                 elif s == "stat":
                     self._report(stmt, stmt.value, state, f"training data self.{t.attr} is scaled by a statistic over ALL rows")
             elif isinstance(t, ast.Attribute) and isinstance(t.value, ast.Name) and t.value.id == "self":
+                # nothing kept on self is computed from the UNLABELED part (complement of the labeled mask,
+                # is_unlabeled / unlabeled_indices): the number of unlabeled samples must not shape the model
+                un = self._mentions_unlabeled(stmt.value)
+                if un is not None:
+                    self.sinks += 1
+                    self._report(stmt, un, state, f"self.{t.attr} is computed from the unlabeled samples "
+                                                  f"(`{ast.unparse(un)[:40]}`)")
                 # statistics kept on self (label counts, fallback mean/std):
                 # every read of a per-sample array inside has to be masked
                 raw = self.unmasked_reads(stmt.value, state.tokens)
@@ -201,6 +208,23 @@ class MaskFlow(MustAnalysis):
                 elif s == "stat":
                     self._report(stmt, stmt.value, state, "sample_weight handed to the estimator's fit is scaled by a "
                                                           "statistic over ALL rows (unlabeled samples included)")
+
+    def _mentions_unlabeled(self, e, depth=0):
+        for x in ast.walk(e):
+            if isinstance(x, ast.UnaryOp) and isinstance(x.op, ast.Invert) and isinstance(x.operand, ast.Name) \
+                    and x.operand.id in self.mask_names:
+                return x
+            if isinstance(x, ast.Call) and c01.callname(x) in ("is_unlabeled", "unlabeled_indices"):
+                return x
+        if depth < 3:
+            for nm in names_in(e):
+                defs = [d for d in ast.walk(self.fnode) if isinstance(d, ast.Assign) and len(d.targets) == 1
+                        and isinstance(d.targets[0], ast.Name) and d.targets[0].id == nm]
+                if len(defs) == 1 and nm not in self.mask_names:
+                    r = self._mentions_unlabeled(defs[0].value, depth + 1)
+                    if r is not None:
+                        return r
+        return None
 
     def unmasked_reads(self, e, tokens):
         """Name nodes of raw (unmasked) per-sample arrays that are read in `e`
